@@ -753,6 +753,14 @@ fn primitive<'s>(input: &mut &'s str) -> PResult<Option<BoundSet>, SemverParseEr
                     ..
                 },
             ) => BoundSet::at_least(Predicate::Including((major + 1, 0, 0).into())),
+            // `>*` admits nothing, `<=*` and `=*` admit everything
+            (GreaterThan, Partial { major: None, .. }) => {
+                BoundSet::at_most(Predicate::Excluding((0, 0, 0, 0).into()))
+            }
+            (LessThanEquals, Partial { major: None, .. })
+            | (Exact, Partial { major: None, .. }) => {
+                BoundSet::at_least(Predicate::Including((0, 0, 0).into()))
+            }
             (GreaterThan, partial) => BoundSet::at_least(Predicate::Excluding(partial.into())),
             (
                 LessThan,
@@ -851,7 +859,6 @@ fn primitive<'s>(input: &mut &'s str) -> PResult<Option<BoundSet>, SemverParseEr
                     build: vec![],
                 })),
             ),
-            _ => None,
         },
     )
     .context("operation range (ex: >= 1.2.3)")
@@ -1058,6 +1065,9 @@ fn tilde<'s>(input: &mut &'s str) -> PResult<Option<BoundSet>, SemverParseError<
             Bound::Lower(Predicate::Including((major, 0, 0).into())),
             Bound::Upper(Predicate::Excluding((major + 1, 0, 0, 0).into())),
         ),
+        (_, Partial { major: None, .. }) => {
+            BoundSet::at_least(Predicate::Including((0, 0, 0).into()))
+        }
         _ => None,
     })
     .context("tilde version range (ex: ~1.2.3)")
@@ -1122,6 +1132,9 @@ fn caret<'s>(input: &mut &'s str) -> PResult<Option<BoundSet>, SemverParseError<
                     (n, _, _) => Version::from((n + 1, 0, 0, 0)),
                 })),
             ),
+            Partial { major: None, .. } => {
+                BoundSet::at_least(Predicate::Including((0, 0, 0).into()))
+            }
             _ => None,
         },
     )
@@ -1143,13 +1156,7 @@ fn hyphen<'s>(input: &mut &'s str) -> PResult<Option<BoundSet>, SemverParseError
                 minor: None,
                 patch: None,
                 ..
-            } => Predicate::Excluding(Version {
-                major: 0,
-                minor: 0,
-                patch: 0,
-                pre_release: vec![Identifier::Numeric(0)],
-                build: vec![],
-            }),
+            } => Predicate::Unbounded,
             Partial {
                 major: Some(major),
                 minor: None,
